@@ -119,6 +119,28 @@ class Helper:
         return [x.arg for x in a.posonlyargs + a.args]
 
 
+def _without_early_returns(stmts):
+    """The statement list of a procedure with its bare `return`s structured away (None when that needs more than moving the rest of a block
+    under the else of an `if .. return`)."""
+    out = []
+    for k, st in enumerate(stmts):
+        if isinstance(st, ast.Return):
+            if st.value is not None:
+                return None
+            return out or [ast.copy_location(ast.Pass(), st)]
+        if isinstance(st, ast.If) and not st.orelse and st.body and isinstance(st.body[-1], ast.Return) and st.body[-1].value is None \
+                and not any(isinstance(n, ast.Return) for b in st.body[:-1] for n in walk_shallow(b)):
+            rest = _without_early_returns(stmts[k + 1:])
+            if rest is None:
+                return None
+            new = ast.copy_location(ast.If(test=st.test, body=st.body[:-1] or [ast.copy_location(ast.Pass(), st)], orelse=rest), st)
+            return out + [new]
+        if any(isinstance(n, ast.Return) for n in walk_shallow(st)) and not isinstance(st, FUNC + (ast.ClassDef,)):
+            return None
+        out.append(st)
+    return out
+
+
 def plan_helper(fn, cls):
     a = fn.args
     if a.vararg or a.kwarg or a.kwonlyargs:
@@ -157,6 +179,9 @@ def plan_helper(fn, cls):
         rets = [n for n in walk_shallow(fn) if isinstance(n, ast.Return)]
         if not rets:
             h = Helper(fn, cls, "stmts", None, body)
+        elif all(r.value is None for r in rets) and _without_early_returns(copy.deepcopy(body)) is not None:
+            # a procedure that leaves early (`if C: return`): the rest moves under the opposite branch
+            h = Helper(fn, cls, "stmts", None, _without_early_returns(copy.deepcopy(body)))
         else:
             # statements without any return, followed by a pure tree of returns
             for k in range(1, len(body)):
@@ -472,11 +497,59 @@ def library_spellings(tree, stats):
 
     def bump(k):
         count[k] = count.get(k, 0) + 1
+    # attributes that hold a collections.Counter (every assignment to them in the module is `Counter(..)`)
+    stores = {}
+    for n in ast.walk(tree):
+        if isinstance(n, ast.Assign):
+            for t in n.targets:
+                if isinstance(t, ast.Attribute):
+                    stores.setdefault(t.attr, []).append(isinstance(n.value, ast.Call) and ast.unparse(n.value.func) in ("Counter", "collections.Counter"))
+    counters = {a for a, v in stores.items() if all(v)}
 
     class R(ast.NodeTransformer):
         def visit_Call(self, c):
             self.generic_visit(c)
             f = c.func
+            if isinstance(f, ast.Name) and f.id == "zip" and len(c.args) >= 2 and not c.keywords and not any(isinstance(a, ast.Starred) for a in c.args):
+                # zip over one re-iterable container Y, its images under map(F, Y) and constants repeat(k): ((.., .., ..) for _z in Y)
+                base = None
+                items = []
+                zvar = lambda: ast.Name(id="_z", ctx=ast.Load())
+                for a in c.args:
+                    fa = ast.unparse(a.func) if isinstance(a, ast.Call) else None
+                    if fa in ("repeat", "itertools.repeat") and len(a.args) == 1 and not a.keywords and _simple_arg(a.args[0]):
+                        items.append(a.args[0])
+                        continue
+                    if fa == "map" and len(a.args) == 2 and not a.keywords:
+                        g = _map_as_generator(a)
+                        y = a.args[1]
+                        if g is None:
+                            items = None
+                            break
+                        e = _Subst({"_m": zvar()}).visit(copy.deepcopy(g.elt))
+                    else:
+                        y, e = a, zvar()
+                    if not (isinstance(y, ast.Name) or isinstance(y, ast.Attribute) and _simple_arg(y)) or base is not None and ast.unparse(y) != base:
+                        items = None
+                        break
+                    base = ast.unparse(y)
+                    base_node = y
+                    items.append(e)
+                if items and base is not None:
+                    bump("zip(Y, map(F, Y), repeat(k))")
+                    return loc(ast.GeneratorExp(elt=ast.Tuple(elts=items, ctx=ast.Load()), generators=[ast.comprehension(
+                        target=ast.Name(id="_z", ctx=ast.Store()), iter=copy.deepcopy(base_node), ifs=[], is_async=0)]), c)
+            if isinstance(f, ast.Name) and f.id == "list" and len(c.args) == 1 and not c.keywords and isinstance(c.args[0], ast.GeneratorExp):
+                bump("list(generator)")
+                return loc(ast.ListComp(elt=c.args[0].elt, generators=c.args[0].generators), c)
+            if isinstance(f, ast.Name) and f.id == "list" and len(c.args) == 1 and not c.keywords and isinstance(c.args[0], ast.UnaryOp) \
+                    and isinstance(c.args[0].op, ast.UAdd) and isinstance(c.args[0].operand, ast.Attribute) and c.args[0].operand.attr in counters:
+                # +counter keeps the entries with a positive count, in order
+                bump("list(+counter)")
+                return loc(ast.ListComp(elt=ast.Name(id="_k", ctx=ast.Load()), generators=[ast.comprehension(
+                    target=ast.Tuple(elts=[ast.Name(id="_k", ctx=ast.Store()), ast.Name(id="_c", ctx=ast.Store())], ctx=ast.Store()),
+                    iter=ast.Call(func=ast.Attribute(value=c.args[0].operand, attr="items", ctx=ast.Load()), args=[], keywords=[]),
+                    ifs=[ast.Compare(left=ast.Name(id="_c", ctx=ast.Load()), ops=[ast.Gt()], comparators=[ast.Constant(value=0)])], is_async=0)]), c)
             if isinstance(f, ast.Name) and f.id == "list" and len(c.args) == 1 and not c.keywords and isinstance(c.args[0], ast.Call):
                 inner = c.args[0]
                 if isinstance(inner.func, ast.Name) and inner.func.id == "map" and len(inner.args) == 2 and not inner.keywords:
@@ -547,6 +620,7 @@ def library_spellings(tree, stats):
         # ---- x in [a, b] is x in (a, b): a display written in a membership test is only searched
         def visit_Compare(self, n):
             self.generic_visit(n)
+            _frozenset_in_equality(n)
             if len(n.ops) == 1 and isinstance(n.ops[0], (ast.In, ast.NotIn)) and isinstance(n.comparators[0], ast.List) \
                     and not any(isinstance(e, ast.Starred) for e in n.comparators[0].elts):
                 bump("in [..]")
@@ -831,6 +905,18 @@ def _immutable_constant(v):
     return False
 
 
+def _frozenset_in_equality(tree):
+    """x == frozenset({a, b}) is x == {a, b} (sets compare by content whatever their mutability)."""
+    for n in ast.walk(tree):
+        if isinstance(n, ast.Compare) and all(isinstance(o, (ast.Eq, ast.NotEq)) for o in n.ops):
+            def plain(e):
+                if isinstance(e, ast.Call) and isinstance(e.func, ast.Name) and e.func.id == "frozenset" and len(e.args) == 1 and not e.keywords and isinstance(e.args[0], ast.Set):
+                    return loc(e.args[0], e)
+                return e
+            n.left = plain(n.left)
+            n.comparators = [plain(c) for c in n.comparators]
+
+
 def propagate_new_constants(tree, modname, known_names, stats):
     """A module-level or class-level name that the reference does not know, bound once to an immutable constant and never
     rebound, is replaced by its value where it is read ("introduce a named constant" undone)."""
@@ -870,6 +956,7 @@ def propagate_new_constants(tree, modname, known_names, stats):
                 return loc(copy.deepcopy(cconsts[n.attr][2]), n)
             return n
     P().visit(tree)
+    _frozenset_in_equality(tree)
     for nm, (st, _) in consts.items():
         tree.body.remove(st)
     for nm, (c, m, _) in cconsts.items():
@@ -1216,6 +1303,42 @@ def canon_block(block, fn, counts):
             block[i:i + 1] = out
             counts["literal-loop-unrolled"] = counts.get("literal-loop-unrolled", 0) + 1
             continue
+        # X = set(chain(A, B, ..))   ->   X = set() ; X.update(A) ; X.update(B)
+        if isinstance(st, ast.Assign) and len(st.targets) == 1 and isinstance(st.targets[0], ast.Name) and isinstance(st.value, ast.Call) and isinstance(st.value.func, ast.Name) \
+                and st.value.func.id == "set" and len(st.value.args) == 1 and not st.value.keywords and isinstance(st.value.args[0], ast.Call) \
+                and ast.unparse(st.value.args[0].func) in ("chain", "itertools.chain") and not st.value.args[0].keywords and 1 <= len(st.value.args[0].args) <= 4 \
+                and not any(isinstance(a, ast.Starred) for a in st.value.args[0].args):
+            X = st.targets[0].id
+            if not any(isinstance(n, ast.Name) and n.id == X for a in st.value.args[0].args for n in ast.walk(a)):
+                parts = st.value.args[0].args
+                block[i:i + 1] = [loc(ast.Assign(targets=[ast.Name(id=X, ctx=ast.Store())], value=ast.Call(func=ast.Name(id="set", ctx=ast.Load()), args=[], keywords=[])), st)] + \
+                    [loc(ast.Expr(value=ast.Call(func=ast.Attribute(value=ast.Name(id=X, ctx=ast.Load()), attr="update", ctx=ast.Load()), args=[a], keywords=[])), st) for a in parts]
+                counts["set(chain)->updates"] = counts.get("set(chain)->updates", 0) + 1
+                continue
+        # return D.setdefault(K, V) / X = D.setdefault(K, V)   (V a constant, a display or a constructor call on plain arguments: building it and throwing it away
+        # is unobservable)   ->   if K not in D: D[K] = V ; return D[K] / X = D[K]
+        if isinstance(st, (ast.Return, ast.Assign)) and isinstance(st.value, ast.Call) and isinstance(st.value.func, ast.Attribute) and st.value.func.attr == "setdefault" \
+                and len(st.value.args) == 2 and not st.value.keywords and _simple_arg(st.value.func.value) and _simple_arg(st.value.args[0]):
+            D, K, V = st.value.func.value, st.value.args[0], st.value.args[1]
+            cheap = isinstance(V, (ast.Constant, ast.List, ast.Dict, ast.Set, ast.Tuple)) and all(_simple_arg(e) for e in ast.iter_child_nodes(V) if isinstance(e, ast.expr)) or \
+                isinstance(V, ast.Call) and isinstance(V.func, ast.Name) and V.func.id[:1].isupper() and all(_simple_arg(a) for a in V.args) and not V.keywords
+            if cheap and (isinstance(st, ast.Return) or len(st.targets) == 1 and isinstance(st.targets[0], ast.Name)):
+                def sub():
+                    return ast.Subscript(value=copy.deepcopy(D), slice=copy.deepcopy(K), ctx=ast.Load())
+                store = ast.Assign(targets=[ast.Subscript(value=copy.deepcopy(D), slice=copy.deepcopy(K), ctx=ast.Store())], value=V)
+                guard = loc(ast.If(test=ast.Compare(left=copy.deepcopy(K), ops=[ast.NotIn()], comparators=[copy.deepcopy(D)]), body=[store], orelse=[]), st)
+                st.value = loc(sub(), st)
+                block[i:i + 1] = [guard, st]
+                counts["setdefault->test-and-store"] = counts.get("setdefault->test-and-store", 0) + 1
+                i += 2
+                continue
+        # if C: pass else: E   ->   if not C: E
+        if isinstance(st, ast.If) and len(st.body) == 1 and isinstance(st.body[0], ast.Pass) and st.orelse:
+            block[i] = loc(ast.If(test=negate(st.test), body=st.orelse, orelse=[]), st)
+            if len(st.orelse) == 1 and isinstance(st.orelse[0], ast.If):
+                pass
+            counts["empty-branch->negated-test"] = counts.get("empty-branch->negated-test", 0) + 1
+            continue
         # x = x   (left over when a helper's result lands in the variable it was computed in): nothing
         if isinstance(st, ast.Assign) and len(st.targets) == 1 and isinstance(st.targets[0], ast.Name) and isinstance(st.value, ast.Name) and st.value.id == st.targets[0].id \
                 and len(block) > 1:
@@ -1271,6 +1394,28 @@ def canon_block(block, fn, counts):
                 del block[i + 1]
                 counts["single-exit->return-per-branch"] = counts.get("single-exit->return-per-branch", 0) + 1
                 continue
+        # if C: X = A else: X = B ; <simple statement reading X once>   ->   the statement with (A if C else B) for X   (X read nowhere else; C, A, B call-free)
+        if isinstance(st, ast.If) and len(st.body) == 1 and len(st.orelse) == 1 and isinstance(nxt, (ast.Assign, ast.Expr, ast.Return, ast.AugAssign)):
+            a_, b_ = st.body[0], st.orelse[0]
+            if isinstance(a_, ast.Assign) and isinstance(b_, ast.Assign) and len(a_.targets) == 1 and len(b_.targets) == 1 and isinstance(a_.targets[0], ast.Name) \
+                    and isinstance(b_.targets[0], ast.Name) and a_.targets[0].id == b_.targets[0].id:
+                X = a_.targets[0].id
+                reads = [n for n in ast.walk(nxt) if isinstance(n, ast.Name) and n.id == X and isinstance(n.ctx, ast.Load)]
+                total = [n for n in ast.walk(fn) if isinstance(n, ast.Name) and n.id == X]
+                calm = not any(isinstance(n, (ast.Call, ast.Await, ast.Yield, ast.YieldFrom, ast.NamedExpr, ast.Lambda)) for e in (st.test, a_.value, b_.value) for n in ast.walk(e))
+                if len(reads) == 1 and len(total) == 3 and calm:
+                    ie = loc(ast.IfExp(test=st.test, body=a_.value, orelse=b_.value), st)
+                    for n in ast.walk(nxt):
+                        for f_, val in ast.iter_fields(n):
+                            if val is reads[0]:
+                                setattr(n, f_, ie)
+                            elif isinstance(val, list):
+                                for k_, e_ in enumerate(val):
+                                    if e_ is reads[0]:
+                                        val[k_] = ie
+                    del block[i]
+                    counts["branch-temp->conditional-expression"] = counts.get("branch-temp->conditional-expression", 0) + 1
+                    continue
         # if C: X = A else: X = B ; if TEST(X): S      ->   if C: (if TEST(A): S) else: (if TEST(B): S)     (X used only in that test)
         if isinstance(st, ast.If) and len(st.body) == 1 and len(st.orelse) == 1 and isinstance(nxt, ast.If) and not nxt.orelse and len(nxt.body) <= 3:
             a_, b_ = st.body[0], st.orelse[0]
@@ -1447,8 +1592,8 @@ def _own_attribute_aliases(fn, module_tree, counts):
         the whole call): x is replaced by `self.a`;
     (2) `x = E` directly followed by `self.a = x` (also as one element of a tuple target): the value is stored straight into the attribute
         (`self.a = E`) and the later reads of x read `self.a` -- provided this function stores `self.a` nowhere else and x is bound once."""
-    if not fn.args.args or fn.args.args[0].arg != "self":
-        return
+    is_method = bool(fn.args.args) and fn.args.args[0].arg == "self"
+    params = {a.arg for a in fn.args.posonlyargs + fn.args.args + fn.args.kwonlyargs}
     stored_outside_init = set()
     for f in ast.walk(module_tree):
         if isinstance(f, FUNC) and f.name != "__init__":
@@ -1478,20 +1623,27 @@ def _own_attribute_aliases(fn, module_tree, counts):
             st = block[i]
             nxt = block[i + 1] if i + 1 < len(block) else None
             i += 1
-            # (1)
+            # (1)  (also `x = b.a` for another name b that is bound once -- a parameter, a loop variable, a local -- when every read of x follows in this block)
             if isinstance(st, ast.Assign) and len(st.targets) == 1 and isinstance(st.targets[0], ast.Name) and isinstance(st.value, ast.Attribute) \
-                    and isinstance(st.value.value, ast.Name) and st.value.value.id == "self" and nstores.get(st.targets[0].id) == 1 \
-                    and st.value.attr not in stored_outside_init and block is fn.body:
+                    and isinstance(st.value.value, ast.Name) and nstores.get(st.targets[0].id) == 1 and st.value.attr not in stored_outside_init \
+                    and not (st.value.attr.startswith("__") and st.value.attr.endswith("__")) \
+                    and (is_method and st.value.value.id == "self" and block is fn.body
+                         or st.value.value.id != "self" and nstores.get(st.value.value.id, 0) == (0 if st.value.value.id in params else 1)
+                         and (st.value.value.id in params or nstores.get(st.value.value.id) == 1)):
                 x = st.targets[0].id
                 if any(isinstance(g, FUNC + (ast.Lambda,)) and g is not fn and any(isinstance(y, ast.Name) and y.id == x for y in ast.walk(g)) for g in ast.walk(fn)):
                     continue        # captured by a nested function: leave it
+                if st.value.value.id != "self":
+                    later = {id(y) for s2 in block[i:] for y in ast.walk(s2)}
+                    if any(isinstance(y, ast.Name) and y.id == x and isinstance(y.ctx, ast.Load) and id(y) not in later for y in ast.walk(fn)):
+                        continue
                 substitute(x, st.value)
                 block.remove(st)
                 i -= 1
                 counts["own-attribute-alias-expanded"] = counts.get("own-attribute-alias-expanded", 0) + 1
                 continue
             # (2)
-            if isinstance(st, ast.Assign) and len(st.targets) == 1 and isinstance(nxt, ast.Assign) and len(nxt.targets) == 1 and isinstance(nxt.value, ast.Name) \
+            if is_method and isinstance(st, ast.Assign) and len(st.targets) == 1 and isinstance(nxt, ast.Assign) and len(nxt.targets) == 1 and isinstance(nxt.value, ast.Name) \
                     and isinstance(nxt.targets[0], ast.Attribute) and isinstance(nxt.targets[0].value, ast.Name) and nxt.targets[0].value.id == "self":
                 x, attr = nxt.value.id, nxt.targets[0]
                 tgt = st.targets[0]
@@ -1513,9 +1665,16 @@ def _own_attribute_aliases(fn, module_tree, counts):
                     continue
 
 
-def _global_aliases(fn, counts):
+def _global_aliases(fn, counts, module_tree=None):
     """`x = Module.attr.chain` (rooted in a name that is not local to the function), x bound nowhere else: x is just another
-    name for that object -- replace x by the chain and drop the assignment."""
+    name for that object -- replace x by the chain and drop the assignment.  `x = g` for a function / class / imported name g of the
+    module alike."""
+    module_callables = set()
+    for n in (module_tree.body if module_tree is not None else []):
+        if isinstance(n, FUNC + (ast.ClassDef,)):
+            module_callables.add(n.name)
+        elif isinstance(n, (ast.Import, ast.ImportFrom)):
+            module_callables |= {(a.asname or a.name).split(".")[0] for a in n.names}
     local = set()
     for n in ast.walk(fn):
         if isinstance(n, ast.Name) and isinstance(n.ctx, (ast.Store, ast.Del)):
@@ -1535,7 +1694,8 @@ def _global_aliases(fn, counts):
                 stores[x] = stores.get(x, 0) + 2
     for holder, fld, block in blocks_of(fn):
         for st in list(block):
-            if not (isinstance(st, ast.Assign) and len(st.targets) == 1 and isinstance(st.targets[0], ast.Name) and isinstance(st.value, ast.Attribute)):
+            if not (isinstance(st, ast.Assign) and len(st.targets) == 1 and isinstance(st.targets[0], ast.Name) and
+                    (isinstance(st.value, ast.Attribute) or isinstance(st.value, ast.Name) and st.value.id in module_callables and st.value.id != st.targets[0].id)):
                 continue
             root = st.value
             while isinstance(root, ast.Attribute):
@@ -2272,6 +2432,495 @@ def top_functions(tree, modname):
     yield from rec(tree.body, modname)
 
 
+def _match_as_if(tree, stats):
+    """`match S:` whose cases are built from literal / singleton / bare class / capture / wildcard / or-patterns (plus guards) is the
+    if / elif chain of `S == v`, `S is v`, `isinstance(S, C)` tests in the same order (a subject that is not a plain name or attribute
+    chain is bound to a temporary first; a capture is an assignment at the head of the case body).  Other patterns are left alone."""
+    def pure(e):
+        return isinstance(e, ast.Name) or isinstance(e, ast.Attribute) and pure(e.value)
+
+    def cond(p, subj):
+        """-> (test or None for 'always', [bindings]) or raise ValueError"""
+        S = lambda: copy.deepcopy(subj)
+        if isinstance(p, ast.MatchValue):
+            return ast.Compare(left=S(), ops=[ast.Eq()], comparators=[p.value]), []
+        if isinstance(p, ast.MatchSingleton):
+            return ast.Compare(left=S(), ops=[ast.Is()], comparators=[ast.Constant(value=p.value)]), []
+        if isinstance(p, ast.MatchClass) and not p.patterns and not p.kwd_attrs:
+            return ast.Call(func=ast.Name(id="isinstance", ctx=ast.Load()), args=[S(), p.cls], keywords=[]), []
+        if isinstance(p, ast.MatchAs):
+            binds = [ast.Assign(targets=[ast.Name(id=p.name, ctx=ast.Store())], value=S(), lineno=getattr(p, "lineno", 0))] if p.name else []
+            if p.pattern is None:
+                return None, binds
+            t, b = cond(p.pattern, subj)
+            return t, b + binds
+        if isinstance(p, ast.MatchOr):
+            parts = [cond(q, subj) for q in p.patterns]
+            if any(b for t, b in parts):
+                raise ValueError
+            if any(t is None for t, b in parts):
+                return None, []
+            return ast.BoolOp(op=ast.Or(), values=[t for t, b in parts]), []
+        raise ValueError
+
+    class T(ast.NodeTransformer):
+        def visit_Match(self, node):
+            self.generic_visit(node)
+            pre = []
+            subj = node.subject
+            if not pure(subj):
+                pre = [ast.Assign(targets=[ast.Name(id="_subject", ctx=ast.Store())], value=subj, lineno=node.lineno)]
+                subj = ast.Name(id="_subject", ctx=ast.Load())
+            try:
+                arms = []
+                for case in node.cases:
+                    t, binds = cond(case.pattern, subj)
+                    if case.guard is not None:
+                        g = case.guard
+                        if binds:                # the guard may read the capture: it reads the subject there
+                            names = {b.targets[0].id for b in binds}
+
+                            class Sub(ast.NodeTransformer):
+                                def visit_Name(self, n):
+                                    return copy.deepcopy(subj) if n.id in names and isinstance(n.ctx, ast.Load) else n
+                            g = Sub().visit(copy.deepcopy(g))
+                        t = g if t is None else ast.BoolOp(op=ast.And(), values=[t, g])
+                    arms.append((t, binds + case.body))
+            except ValueError:
+                return node
+            out = None
+            for t, body in reversed(arms):
+                if t is None:
+                    out = body
+                else:
+                    out = [ast.copy_location(ast.If(test=t, body=body, orelse=out or []), node)]
+            stats["match-as-if"] = stats.get("match-as-if", 0) + 1
+            res = pre + (out or [])
+            for r in res:
+                ast.fix_missing_locations(ast.copy_location(r, node) if not hasattr(r, "lineno") else r)
+            return res or ast.copy_location(ast.Pass(), node)
+
+        def visit_With(self, node):
+            # `with suppress(E, ..): body` is `try: body / except (E, ..): pass`
+            self.generic_visit(node)
+            if len(node.items) == 1 and node.items[0].optional_vars is None:
+                c = node.items[0].context_expr
+                if isinstance(c, ast.Call) and ast.unparse(c.func) in ("suppress", "contextlib.suppress") and c.args and not c.keywords \
+                        and not any(isinstance(a, ast.Starred) for a in c.args):
+                    typ = c.args[0] if len(c.args) == 1 else ast.Tuple(elts=list(c.args), ctx=ast.Load())
+                    h = ast.ExceptHandler(type=typ, name=None, body=[ast.copy_location(ast.Pass(), node)])
+                    stats["suppress-as-try"] = stats.get("suppress-as-try", 0) + 1
+                    return ast.fix_missing_locations(ast.copy_location(ast.Try(body=node.body, handlers=[ast.copy_location(h, node)], orelse=[], finalbody=[]), node))
+            return node
+
+    T().visit(tree)
+
+
+def _inline_nested_thunks(fn, stats):
+    """A nested function without parameters whose body is one `return E`, only ever called directly (`g()`) in the enclosing function's own
+    scope, is E at each call (its free names are read at call time either way)."""
+    for holder, fld, block in list(blocks_of(fn)):
+        for g in [st for st in block if isinstance(st, ast.FunctionDef)]:
+            a = g.args
+            if a.args or a.posonlyargs or a.kwonlyargs or a.vararg or a.kwarg or g.decorator_list:
+                continue
+            body = [st for st in g.body if not (isinstance(st, ast.Expr) and isinstance(st.value, ast.Constant))]
+            if len(body) != 1 or not isinstance(body[0], ast.Return) or body[0].value is None:
+                continue
+            E = body[0].value
+            if any(isinstance(n, (ast.Yield, ast.YieldFrom, ast.Await, ast.NamedExpr, ast.Lambda)) for n in ast.walk(E)):
+                continue
+            own = list(_walk_same_scope_fn(fn))
+            mentions = [n for n in ast.walk(fn) if isinstance(n, ast.Name) and n.id == g.name]
+            calls = [n for n in own if isinstance(n, ast.Call) and isinstance(n.func, ast.Name) and n.func.id == g.name and not n.args and not n.keywords]
+            if not calls or len(calls) != len(mentions):
+                continue
+            # names read by E must not be rebound as a different kind of thing between definition and call: they are plain locals of fn either way
+            for c in calls:
+                for n in ast.walk(fn):
+                    for f_, v in ast.iter_fields(n):
+                        if v is c:
+                            setattr(n, f_, loc(copy.deepcopy(E), c))
+                        elif isinstance(v, list):
+                            for k_, e_ in enumerate(v):
+                                if e_ is c:
+                                    v[k_] = loc(copy.deepcopy(E), c)
+            block.remove(g)
+            if not block:
+                block.append(loc(ast.Pass(), g))
+            stats["nested-thunk-inlined"] = stats.get("nested-thunk-inlined", 0) + 1
+
+
+def _partials_of_new_helpers(tree, modname, known, stats):
+    """`partial(H, a, ..)` / `partial(self.H, a, ..)` where H is a private function / method the reference does not know: the closure it stands
+    for, written out where the partial is made -- a lambda over the remaining parameters when H is one `return E`, a nested def otherwise.
+    A bound argument is written in place when it is a name the enclosing function never rebinds (or has the parameter's own name);
+    otherwise it is first copied to a local named after the parameter."""
+    helpers = {}
+    for n in tree.body:
+        if isinstance(n, ast.FunctionDef) and n.name.startswith("_") and f"{modname}.{n.name}" not in known and not n.decorator_list:
+            helpers[("", n.name)] = n
+        elif isinstance(n, ast.ClassDef):
+            for m in n.body:
+                if isinstance(m, ast.FunctionDef) and m.name.startswith("_") and not m.name.endswith("__") and f"{modname}.{n.name}.{m.name}" not in known and not m.decorator_list:
+                    helpers[(n.name, m.name)] = m
+    if not helpers:
+        return
+    used = set()
+    for cls, fn in [(None, f) for f in tree.body if isinstance(f, FUNC)] + [(c.name, f) for c in tree.body if isinstance(c, ast.ClassDef) for f in c.body if isinstance(f, FUNC)]:
+        stores = {}
+        for n in ast.walk(fn):
+            if isinstance(n, ast.Name) and isinstance(n.ctx, (ast.Store, ast.Del)):
+                stores[n.id] = stores.get(n.id, 0) + 1
+            elif isinstance(n, FUNC) and n is not fn:
+                stores[n.name] = stores.get(n.name, 0) + 1
+        names = {n.id for n in ast.walk(fn) if isinstance(n, ast.Name)} | {a.arg for a in ast.walk(fn) if isinstance(a, ast.arg)}
+        for holder, fld, block in list(blocks_of(fn)):
+            i = 0
+            while i < len(block):
+                st = block[i]
+                i += 1
+                if isinstance(st, FUNC + (ast.ClassDef,)):
+                    continue
+                for c in [n for n in ast.walk(st) if isinstance(n, ast.Call) and ast.unparse(n.func) in ("partial", "functools.partial") and n.args and not n.keywords]:
+                    tgt = c.args[0]
+                    if isinstance(tgt, ast.Name) and ("", tgt.id) in helpers:
+                        h, recv = helpers[("", tgt.id)], None
+                    elif isinstance(tgt, ast.Attribute) and isinstance(tgt.value, ast.Name) and tgt.value.id == "self" and cls and (cls, tgt.attr) in helpers:
+                        h, recv = helpers[(cls, tgt.attr)], "self"
+                    else:
+                        continue
+                    a = h.args
+                    if a.vararg or a.kwarg or a.kwonlyargs or a.posonlyargs or a.defaults or any(isinstance(x, ast.Starred) for x in c.args):
+                        continue
+                    params = [x.arg for x in a.args]
+                    if recv:
+                        if not params:
+                            continue
+                        selfp, params = params[0], params[1:]
+                    bound = c.args[1:]
+                    if len(bound) > len(params) or not all(isinstance(b, (ast.Name, ast.Constant)) for b in bound):
+                        continue
+                    mapping, pre = {}, []
+                    if recv and selfp != "self":
+                        mapping[selfp] = ast.Name(id="self", ctx=ast.Load())
+                    for pname, b in zip(params, bound):
+                        if isinstance(b, ast.Constant) or b.id == pname or stores.get(b.id, 0) == 0:
+                            if not (isinstance(b, ast.Name) and b.id == pname):
+                                mapping[pname] = b
+                        else:
+                            tmp = pname if pname not in names else f"_p_{pname}"
+                            names.add(tmp)
+                            pre.append(loc(ast.Assign(targets=[ast.Name(id=tmp, ctx=ast.Store())], value=copy.deepcopy(b)), st))
+                            if tmp != pname:
+                                mapping[pname] = ast.Name(id=tmp, ctx=ast.Load())
+                    rest = params[len(bound):]
+                    body = [x for x in h.body if not (isinstance(x, ast.Expr) and isinstance(x.value, ast.Constant))]
+                    body = [_Subst(mapping).visit(copy.deepcopy(x)) for x in body]
+                    argspec = ast.arguments(posonlyargs=[], args=[ast.arg(arg=r) for r in rest], vararg=None, kwonlyargs=[], kw_defaults=[], kwarg=None, defaults=[])
+                    if len(body) == 1 and isinstance(body[0], ast.Return) and body[0].value is not None:
+                        new = loc(ast.Lambda(args=argspec, body=body[0].value), c)
+                    else:
+                        nm = h.name
+                        pre.append(loc(ast.FunctionDef(name=nm, args=argspec, body=body, decorator_list=[], returns=None, type_params=[]), st))
+                        new = loc(ast.Name(id=nm, ctx=ast.Load()), c)
+                    for n in ast.walk(st):
+                        for f_, v in ast.iter_fields(n):
+                            if v is c:
+                                setattr(n, f_, new)
+                            elif isinstance(v, list):
+                                for k_, e_ in enumerate(v):
+                                    if e_ is c:
+                                        v[k_] = new
+                    block[i - 1:i - 1] = pre
+                    i += len(pre)
+                    used.add(id(h))
+                    stats["partial-of-new-helper->closure"] = stats.get("partial-of-new-helper->closure", 0) + 1
+    # helpers nothing refers to any more are dropped
+    for key, h in helpers.items():
+        if id(h) not in used:
+            continue
+        nm = h.name
+        refs = [n for n in ast.walk(tree) if (isinstance(n, ast.Name) and n.id == nm and isinstance(n.ctx, ast.Load)) or (isinstance(n, ast.Attribute) and n.attr == nm)]
+        if not refs:
+            for holder in [tree] + [c for c in tree.body if isinstance(c, ast.ClassDef)]:
+                if h in holder.body:
+                    holder.body.remove(h)
+
+
+def _coalesce_copies(fn, stats):
+    """`X = T` where T is a local that lives only in the statements just before (bound there, read nowhere after) and X is untouched over
+    that stretch except for being copied into T (`T = X`): T was X under another name -- T is renamed to X and the copies disappear."""
+    for holder, fld, block in list(blocks_of(fn)):
+        S = 0
+        while S < len(block):
+            st = block[S]
+            S += 1
+            if not (isinstance(st, ast.Assign) and len(st.targets) == 1 and isinstance(st.targets[0], ast.Name) and isinstance(st.value, ast.Name)
+                    and st.value.id != st.targets[0].id):
+                continue
+            X, T = st.targets[0].id, st.value.id
+            if any(a.arg == T for a in fn.args.args + fn.args.kwonlyargs + fn.args.posonlyargs):
+                continue
+            idx = S - 1
+            firsts = [k for k in range(idx) if any(isinstance(n, ast.Name) and n.id == T for n in ast.walk(block[k]))]
+            if not firsts:
+                continue
+            j = firsts[0]
+            region = block[j:idx]
+            inside = {id(n) for r in region for n in ast.walk(r)} | {id(st.value)}
+            if any(isinstance(n, ast.Name) and n.id == T and id(n) not in inside for n in ast.walk(fn)):
+                continue
+            if any(isinstance(g, FUNC + (ast.Lambda, ast.ListComp, ast.SetComp, ast.DictComp, ast.GeneratorExp)) and any(isinstance(y, ast.Name) and y.id == T for y in ast.walk(g))
+                   for r in region for g in ast.walk(r)):
+                continue
+            # the first mention of T must be a binding, at statement level of the region (possibly in the branches of an if chain)
+            copies = [n for r in region for n in ast.walk(r) if isinstance(n, ast.Assign) and len(n.targets) == 1 and isinstance(n.targets[0], ast.Name)
+                      and n.targets[0].id == T and isinstance(n.value, ast.Name) and n.value.id == X]
+            allowed = {id(c.value) for c in copies}
+            if any(isinstance(n, ast.Name) and n.id == X and id(n) not in allowed for r in region for n in ast.walk(r)):
+                continue
+            if any(isinstance(n, (ast.While, ast.For, ast.Try, ast.With)) for r in region for n in ast.walk(r)):
+                continue
+            for r in region:
+                for n in ast.walk(r):
+                    if isinstance(n, ast.Name) and n.id == T:
+                        n.id = X
+            # drop the copies (now `X = X`)
+            for hold2, fld2, b2 in [(None, None, block)] + [x for r in region for x in blocks_of(r)]:
+                for c in list(b2):
+                    if isinstance(c, ast.Assign) and len(c.targets) == 1 and isinstance(c.targets[0], ast.Name) and isinstance(c.value, ast.Name) and c.targets[0].id == c.value.id == X:
+                        if len(b2) == 1:
+                            b2[0] = loc(ast.Pass(), c)
+                        else:
+                            b2.remove(c)
+            if st in block:
+                block.remove(st)
+            S = 0
+            stats["copy-coalesced"] = stats.get("copy-coalesced", 0) + 1
+
+
+def _get_then_none_test(fn, tree, stats):
+    """`X = D.get(K)` directly followed by `if X is not None: BODY` (X read nowhere else) is `if K in D: BODY` with `D[K]` for X -- when
+    no store into that table anywhere in the module can put a None there (every `<..>.attr[..] = V` has V a display / constructor call)."""
+    def never_none(attr):
+        stores = []
+        for f in ast.walk(tree):
+            if not isinstance(f, FUNC):
+                continue
+            for n in _walk_same_scope_fn(f):
+                if isinstance(n, ast.Assign):
+                    for t in n.targets:
+                        if isinstance(t, ast.Subscript) and isinstance(t.value, ast.Attribute) and t.value.attr == attr:
+                            v = n.value
+                            if isinstance(v, ast.Name):
+                                ds = [a.value for a in _walk_same_scope_fn(f) if isinstance(a, ast.Assign) and len(a.targets) == 1 and isinstance(a.targets[0], ast.Name) and a.targets[0].id == v.id]
+                                v = ds[0] if len(ds) == 1 else v
+                            stores.append(isinstance(v, (ast.Tuple, ast.List, ast.Dict, ast.Set, ast.JoinedStr)) or isinstance(v, ast.Constant) and v.value is not None)
+                elif isinstance(n, ast.Call) and isinstance(n.func, ast.Attribute) and n.func.attr in ("setdefault", "update") and isinstance(n.func.value, ast.Attribute) \
+                        and n.func.value.attr == attr:
+                    stores.append(False)
+        return bool(stores) and all(stores)
+    for holder, fld, block in list(blocks_of(fn)):
+        i = 0
+        while i + 1 < len(block):
+            a, b = block[i], block[i + 1]
+            i += 1
+            if not (isinstance(a, ast.Assign) and len(a.targets) == 1 and isinstance(a.targets[0], ast.Name) and isinstance(a.value, ast.Call)
+                    and isinstance(a.value.func, ast.Attribute) and a.value.func.attr == "get" and len(a.value.args) == 1 and not a.value.keywords
+                    and isinstance(a.value.func.value, ast.Attribute) and isinstance(a.value.args[0], ast.Name)):
+                continue
+            x = a.targets[0].id
+            t = b.test if isinstance(b, ast.If) else None
+            if not (isinstance(t, ast.Compare) and isinstance(t.left, ast.Name) and t.left.id == x and len(t.ops) == 1 and isinstance(t.ops[0], ast.IsNot)
+                    and isinstance(t.comparators[0], ast.Constant) and t.comparators[0].value is None and not b.orelse):
+                continue
+            inside = sum(1 for st in b.body for n in ast.walk(st) if isinstance(n, ast.Name) and n.id == x)
+            total = sum(1 for n in ast.walk(fn) if isinstance(n, ast.Name) and n.id == x)
+            if total != inside + 2 or any(isinstance(n, ast.Name) and n.id == x and not isinstance(n.ctx, ast.Load) for st in b.body for n in ast.walk(st)):
+                continue
+            D, K = a.value.func.value, a.value.args[0]
+            if not never_none(D.attr):
+                continue
+
+            class S(ast.NodeTransformer):
+                def visit_Name(self, n):
+                    if n.id == x:
+                        return ast.copy_location(ast.Subscript(value=copy.deepcopy(D), slice=copy.deepcopy(K), ctx=ast.Load()), n)
+                    return n
+            b.body = [S().visit(st) for st in b.body]
+            b.test = ast.copy_location(ast.Compare(left=copy.deepcopy(K), ops=[ast.In()], comparators=[copy.deepcopy(D)]), t)
+            ast.fix_missing_locations(b)
+            block.remove(a)
+            stats["get-then-none-test"] = stats.get("get-then-none-test", 0) + 1
+
+
+def _inline_private_context_managers(tree, modname, known, stats):
+    """A module-private class the reference does not know, with nothing but __init__ (storing its arguments), __enter__ and __exit__, used
+    only as `with C(..) [as x]:`, is the try statement it stands for: the statements of __exit__ under `typ is not None` are an
+    `except BaseException: ..; raise` handler, those under `typ is None` run after the block, unconditional ones are a `finally`
+    (__exit__ must answer False / None: the exception always propagates).  The class is removed."""
+    classes = [c for c in tree.body if isinstance(c, ast.ClassDef) and c.name.startswith("_") and not c.bases and not c.decorator_list
+               and not any(k.startswith(f"{modname}.{c.name}.") for k in known)]
+    for c in classes:
+        meths = {m.name: m for m in c.body if isinstance(m, FUNC)}
+        rest = [m for m in c.body if not isinstance(m, FUNC) and not (isinstance(m, ast.Expr) and isinstance(m.value, ast.Constant))
+                and not (isinstance(m, ast.Assign) and len(m.targets) == 1 and isinstance(m.targets[0], ast.Name) and m.targets[0].id == "__slots__")]
+        if rest or not {"__enter__", "__exit__"} <= set(meths) or set(meths) - {"__init__", "__enter__", "__exit__"}:
+            continue
+        if any(m.decorator_list for m in meths.values()):
+            continue
+        # every mention of the class is the context expression of a with item
+        uses = []
+        mentions = [n for n in ast.walk(tree) if isinstance(n, ast.Name) and n.id == c.name]
+        for w in ast.walk(tree):
+            if isinstance(w, ast.With):
+                for it in w.items:
+                    e = it.context_expr
+                    if isinstance(e, ast.Call) and isinstance(e.func, ast.Name) and e.func.id == c.name:
+                        uses.append((w, it))
+        if not uses or len(uses) != len(mentions) or any(len(w.items) != 1 for w, it in uses):
+            continue
+        # __init__: self.f = <parameter>
+        init = meths.get("__init__")
+        fields, params, vararg = {}, [], None
+        ok = True
+        if init is not None:
+            a = init.args
+            if a.kwonlyargs or a.kwarg or a.defaults or a.posonlyargs:
+                continue
+            params = [x.arg for x in a.args[1:]]
+            vararg = a.vararg.arg if a.vararg else None
+            for st in init.body:
+                if isinstance(st, ast.Expr) and isinstance(st.value, ast.Constant):
+                    continue
+                if isinstance(st, ast.Assign) and len(st.targets) == 1 and isinstance(st.targets[0], ast.Attribute) and isinstance(st.targets[0].value, ast.Name) \
+                        and st.targets[0].value.id == a.args[0].arg and isinstance(st.value, ast.Name) and st.value.id in params + [vararg]:
+                    fields[st.targets[0].attr] = st.value.id
+                else:
+                    ok = False
+        if not ok:
+            continue
+        ent, ext = meths["__enter__"], meths["__exit__"]
+        if len(ent.args.args) != 1 or len(ext.args.args) != 4 or ext.args.vararg or ent.args.vararg:
+            continue
+        ebody = [st for st in ent.body if not (isinstance(st, ast.Expr) and isinstance(st.value, ast.Constant))]
+        eret = None
+        if ebody and isinstance(ebody[-1], ast.Return):
+            eret = ebody[-1].value
+            ebody = ebody[:-1]
+        if any(isinstance(n, (ast.Return, ast.Yield, ast.YieldFrom)) for st in ebody for n in ast.walk(st)):
+            continue
+        typ = ext.args.args[1].arg
+        xbody = [st for st in ext.body if not (isinstance(st, ast.Expr) and isinstance(st.value, ast.Constant))]
+        if xbody and isinstance(xbody[-1], ast.Return):
+            v = xbody[-1].value
+            if not (v is None or isinstance(v, ast.Constant) and v.value in (False, None)):
+                continue
+            xbody = xbody[:-1]
+        on_err, on_ok, always = [], [], []
+        for st in xbody:
+            t = st.test if isinstance(st, ast.If) else None
+            if isinstance(t, ast.Compare) and isinstance(t.left, ast.Name) and t.left.id == typ and len(t.ops) == 1 and isinstance(t.comparators[0], ast.Constant) \
+                    and t.comparators[0].value is None and isinstance(t.ops[0], (ast.Is, ast.IsNot)):
+                a_, b_ = (st.body, st.orelse) if isinstance(t.ops[0], ast.IsNot) else (st.orelse, st.body)
+                on_err += a_
+                on_ok += b_
+            else:
+                always.append(st)
+        flat = on_err + on_ok + always
+        if any(isinstance(n, (ast.Return, ast.Yield, ast.YieldFrom)) for st in flat for n in ast.walk(st)) or \
+                any(isinstance(n, ast.Name) and n.id in [x.arg for x in ext.args.args[1:]] for st in flat for n in ast.walk(st)):
+            continue
+
+        def pure(e):
+            return isinstance(e, (ast.Name, ast.Constant)) or isinstance(e, ast.Attribute) and pure(e.value) or \
+                isinstance(e, ast.Call) and isinstance(e.func, ast.Name) and e.func.id == "super" and not e.args or isinstance(e, ast.Tuple) and all(pure(x) for x in e.elts)
+        done = True
+        plans = []
+        for w, it in uses:
+            call = it.context_expr
+            if call.keywords or any(isinstance(x, ast.Starred) for x in call.args) or len(call.args) < len(params) or (len(call.args) > len(params) and not vararg):
+                done = False
+                break
+            bind = dict(zip(params, call.args))
+            if vararg:
+                bind[vararg] = ast.Tuple(elts=list(call.args[len(params):]), ctx=ast.Load())
+            asname = it.optional_vars.id if isinstance(it.optional_vars, ast.Name) else None
+            if it.optional_vars is not None and asname is None:
+                done = False
+                break
+            if on_ok and any(isinstance(n, (ast.Return, ast.Break, ast.Continue)) for st in w.body for n in _walk_same_scope(st)):
+                done = False
+                break
+            plans.append((w, bind, asname))
+        if not done:
+            continue
+        selfname_e, selfname_x = ent.args.args[0].arg, ext.args.args[0].arg
+        for w, bind, asname in plans:
+            pre = []
+            fsub = {}
+            ret_field = eret.attr if isinstance(eret, ast.Attribute) and isinstance(eret.value, ast.Name) and eret.value.id == selfname_e else None
+            for f, pname in fields.items():
+                arg = bind[pname]
+                if pure(arg):
+                    fsub[f] = arg
+                elif asname and f == ret_field:
+                    pre.append(ast.copy_location(ast.Assign(targets=[ast.Name(id=asname, ctx=ast.Store())], value=arg, lineno=w.lineno), w))
+                    fsub[f] = ast.Name(id=asname, ctx=ast.Load())
+                else:
+                    pre.append(ast.copy_location(ast.Assign(targets=[ast.Name(id=f"_cm_{f}", ctx=ast.Store())], value=arg, lineno=w.lineno), w))
+                    fsub[f] = ast.Name(id=f"_cm_{f}", ctx=ast.Load())
+            # arguments not stored in a field are evaluated for effect only if impure
+            for pname, arg in bind.items():
+                if pname not in fields.values() and not pure(arg):
+                    pre.append(ast.copy_location(ast.Expr(value=arg), w))
+
+            def subst(stmts, selfname):
+                class S(ast.NodeTransformer):
+                    def visit_Attribute(self, n):
+                        if isinstance(n.value, ast.Name) and n.value.id == selfname and n.attr in fsub and isinstance(n.ctx, ast.Load):
+                            return copy.deepcopy(fsub[n.attr])
+                        return self.generic_visit(n)
+                out = [S().visit(copy.deepcopy(st)) for st in stmts]
+                for st in out:
+                    for n in ast.walk(st):
+                        ast.copy_location(n, w)
+                        if isinstance(n, ast.Call) and any(isinstance(x, ast.Starred) and isinstance(x.value, ast.Tuple) for x in n.args):
+                            n.args = [y for x in n.args for y in (x.value.elts if isinstance(x, ast.Starred) and isinstance(x.value, ast.Tuple) else [x])]
+                return out
+            enter = subst(ebody, selfname_e)
+            if asname and eret is not None and not (ret_field and isinstance(fsub.get(ret_field), ast.Name) and fsub[ret_field].id == asname):
+                if isinstance(eret, ast.Name) and eret.id == selfname_e:
+                    pass          # `as x` names the manager object itself: nothing of it is left to name (uses of x would keep the class alive)
+                else:
+                    val = subst([ast.Expr(value=eret)], selfname_e)[0].value
+                    enter.append(ast.copy_location(ast.Assign(targets=[ast.Name(id=asname, ctx=ast.Store())], value=val, lineno=w.lineno), w))
+            A, B, U = subst(on_err, selfname_x), subst(on_ok, selfname_x), subst(always, selfname_x)
+            if A or U:
+                handlers = [ast.copy_location(ast.ExceptHandler(type=ast.Name(id="BaseException", ctx=ast.Load()), name=None,
+                                                               body=A + [ast.copy_location(ast.Raise(exc=None, cause=None), w)]), w)] if A else []
+                core = [ast.copy_location(ast.Try(body=w.body, handlers=handlers, orelse=B, finalbody=U), w)]
+            else:
+                core = w.body + B
+            w._replacement = pre + enter + core
+        # splice
+
+        class R(ast.NodeTransformer):
+            def visit_With(self, n):
+                self.generic_visit(n)
+                rep = getattr(n, "_replacement", None)
+                if rep is not None:
+                    for r in rep:
+                        ast.fix_missing_locations(r)
+                    return rep
+                return n
+        R().visit(tree)
+        tree.body.remove(c)
+        stats["context-manager-classes-inlined"] = stats.get("context-manager-classes-inlined", 0) + 1
+        stats.setdefault("inlined", []).append(f"{modname}.{c.name}->with")
+
+
 def _generators_as_list_builders(tree, stats):
     """A generator whose every call is consumed on the spot (`list(g(..))`, `for x in g(..)`, `.extend(g(..))`, dict / sorted / set / tuple /
     any / all / sum of it) and that uses `yield` only as a statement is the function that appends to a list and returns it: `yield E` is
@@ -2380,7 +3029,10 @@ def normalise(tree, modname, keyword_names=frozenset(), ref=None, stats=None):
     stats = stats if stats is not None else {}
     mark_real(tree)
     known = set(ref.get("inventory", {}).get(modname, []))
+    _match_as_if(tree, stats)
     if known:
+        _inline_private_context_managers(tree, modname, known, stats)
+        _partials_of_new_helpers(tree, modname, known, stats)
         _generators_as_list_builders(tree, stats)
         library_spellings(tree, stats)
         propagate_new_constants(tree, modname, set(ref.get("module_names", {}).get(modname, [])), stats)
@@ -2393,10 +3045,13 @@ def normalise(tree, modname, keyword_names=frozenset(), ref=None, stats=None):
             if inl.removed:
                 stats.setdefault("helpers-folded-away", []).extend(f"{modname}.{h}" for h in inl.removed)
     for q, fn in top_functions(tree, modname):
+        _inline_nested_thunks(fn, stats)
+        _coalesce_copies(fn, stats)
+        _get_then_none_test(fn, tree, stats)
         for _ in range(2):
             for holder, fld, block in reversed(list(blocks_of(fn))):     # inner blocks first
                 canon_block(block, fn, stats)
-        _global_aliases(fn, stats)
+        _global_aliases(fn, stats, tree)
         _own_attribute_aliases(fn, tree, stats)
         _merge_accumulators(fn, stats)
         _nested_defs_as_lambdas(fn, set(ref.get("nested", {}).get(q, [])) if known else None or set(), stats) if known else None
